@@ -3,6 +3,8 @@ import J5V.Props.C08
 #print axioms J5V.Props.C08.C08_escape_total
 #print axioms J5V.Props.C08.C08_integer_forms
 #print axioms J5V.Props.C08.C08_float_forms
+#print axioms J5V.Props.C08.C08_wellformed_partial
+#print axioms J5V.Props.C08.C08_parse_is_encoder_tree
 #print axioms J5V.Props.C08.C08_src_formats
 #print axioms J5V.Props.C08.C08_src_encode_switch_coverage
 #print axioms J5V.Props.C08.C08_src_extractor_ok
